@@ -1,26 +1,25 @@
 (* C01 - Every reported probe outcome matches what the network actually did (at the Network interface).
-   Model: TV.Core.Strategy (strategy.rs) over arbitrary input histories; ICMP and UDP (one probe per iteration).
+   Model: TV.Core.Strategy (strategy.rs) over arbitrary input histories; ICMP, UDP and TCP (incl. re-issued probes).
    Ghost history of the round in progress: S = the probes handed to network.send_probe with the outcome of each
    send, in order; A = the deliveries that are GENUINE by the ground-truth definition [ghost_pick]: the response
    passes validate, carries this tracer's trace id (or 0), names a sequence issued in the round in progress and
-   the probe with that sequence is still awaiting its first response.
-   TCP (re-issued probes, Skipped slots) is covered by the correspondence and the ground-truth oracle only:
-   c01_round_matches_history_partial. *)
+   the probe with that sequence is still awaiting its first response. *)
 From TV Require Import Base.Result Core.Types Core.TracerState Core.Strategy Core.Builder
   Proofs.StrategyInv Proofs.StrategyProps Proofs.RoundHistory.
 
-(* [status_of A (p, o)]: Failed p if the send reported a transient failure; otherwise Complete (p completed by
-   sr) if a genuine response sr to p was delivered before the round was published (the first one: A holds at
-   most one entry per sequence), else Awaited p.
+(* [status_of A (p, o)]: Failed p if the send reported a transient failure; Skipped if the send reported
+   address-in-use (TCP: the probe was abandoned and re-issued under the next sequence); otherwise Complete (p
+   completed by sr) if a genuine response sr to p was delivered before the round was published (the first one: A
+   holds at most one entry per sequence), else Awaited p.
    Every published round is exactly the list of these statuses for the probes sent in that round, in order:
    none invented, dropped or counted twice. *)
-Theorem c01_round_matches_history_partial : forall c t0 is, Accept c -> proto c <> Tcp ->
+Theorem c01_round_matches_history : forall c t0 is, Accept c ->
   Forall (fun x => let '(r, sends, acc) := x in rr_probes r = map (status_of acc) sends)
          (run_hist c (ts_new c t0) [] [] is) /\
   map (fun x => fst (fst x)) (run_hist c (ts_new c t0) [] [] is) = pubs (fst (fst (run c t0 is))).
 Proof.
-  intros c t0 is HA Hp. split.
-  - apply (run_hist_matches c HA Hp is); [apply inv_new; assumption|apply hinv_new|intros q o []].
+  intros c t0 is HA. split.
+  - apply (run_hist_matches c HA is); [apply inv_new; assumption|apply hinv_new|intros j q Hj; destruct j; discriminate].
   - apply (run_hist_rounds c HA is); apply inv_new; assumption.
 Qed.
 
